@@ -284,12 +284,22 @@ class Interp:
             return v != ''
         return True
 
+    def typeof_term(self, t):
+        r = typeof_(t)
+        S = lambda s: V.Str(z3.StringVal(s))
+        self.axioms += [z3.Implies(t == UNDEF, r == S('undefined')), z3.Implies(t == NULLV, r == S('object')), z3.Implies(V.is_Bool(t), r == S('boolean')),
+                        z3.Implies(z3.Or(V.is_Num(t), t == NANV), r == S('number')), z3.Implies(V.is_Str(t), r == S('string')),
+                        z3.Implies(t == EMPTY, r == S('object')), z3.Implies(t == NOOP, r == S('function'))]
+        return r
+
     def get_axioms(self, g, base, key):
         self.axioms.append(g != EMPTY)
         self.axioms.append(get(EMPTY, key) == UNDEF)
 
     def member(self, obj, key):
         """property read obj[key]; key is a JS value"""
+        if isinstance(obj, JObj) and obj.null_proto and not obj.props:
+            return UNDEFINED          # Object.create(null) has no properties at all
         if isinstance(obj, JObj):
             if isinstance(key, str):
                 if key in obj.props:
@@ -311,7 +321,10 @@ class Interp:
                 return Native('Array.' + key, lambda it, this, args, _k=key, _o=obj: it.array_method(_o, _k, args))
             if is_v(key):
                 return get(self.term(obj), key)
-            raise JsUnsupported('array member %r' % (key,))
+            kt = self.term(key)
+            g = get(self.term(obj), kt)
+            self.get_axioms(g, None, kt)
+            return g
         if isinstance(obj, ArrLit):
             if isinstance(key, str) and key in ('concat', 'slice'):
                 return Native('Array.' + key, lambda it, this, args, _k=key, _o=obj: it.array_method(_o, _k, args))
@@ -656,7 +669,7 @@ class Interp:
                     return 'boolean'
                 if isinstance(v, (int, float)):
                     return 'number'
-                return typeof_(self.term(v))
+                return self.typeof_term(self.term(v))
             if op == '-' and isinstance(v, (int, float)) and not isinstance(v, bool):
                 return -v
             if op == '+' and isinstance(v, (int, float)) and not isinstance(v, bool):
